@@ -246,7 +246,9 @@ def shrink_traced_types(
 
 def get_typed_dict_class_name(parameter_name: str) -> str:
     """Return the name for a TypedDict class generated for parameter `parameter_name`."""
-    return f"{pascal_case(parameter_name)}TypedDict__RENAME_ME__"
+    name = f"{pascal_case(parameter_name)}TypedDict__RENAME_ME__"
+    # a parameter called `_1` would give `1TypedDict__RENAME_ME__`
+    return name if name.isidentifier() else "_" + name
 
 
 class Stub(metaclass=ABCMeta):
